@@ -141,7 +141,8 @@ impl GraphBlock {
             GraphBlock::Header(level, inlines) => {
                 format!(
                     "{} {}\n",
-                    "#".repeat(*level as usize),
+                    // Markdown has six heading levels: seven or more "#" would be a paragraph
+                    "#".repeat((*level as usize).min(6)),
                     inlines_to_markdown(inlines, options)
                 )
             }
